@@ -139,6 +139,7 @@ func c08Run(w *W) {
 	if w.Failed() {
 		return
 	}
+	w.Op("topology %s over %s: %d members, each sends %d messages from %d tasks", topo, tran, len(members), nmsg, ntask)
 	w.Sleep(5 * time.Millisecond)
 	w.Settle()
 	for _, m := range members {
